@@ -129,6 +129,7 @@ func (e *Engine) verifyFuncInstance(rep *FuncReport, fn *ssa.Function, fc *contr
 	r := e.newRun(name, fc.Mode, fc.Props)
 	r.safe = fc.Safe
 	r.lenBoundLog2 = fc.LenBoundLog2
+	r.appendFacts = fc.AppendFacts
 	var replayInfo *ReplayInfo
 	defer func() {
 		if x := recover(); x != nil {
@@ -173,6 +174,7 @@ func (e *Engine) verifyFuncInstance(rep *FuncReport, fn *ssa.Function, fc *contr
 	// parameters: bound by "requires p == expr" of the special form handled through Binds, else fresh
 	alloc0 := pre.getPV("$alloc", smt.Int)
 	r.assume(c.True(), c.Op(">", nil, alloc0, c.IntC(1)))
+	r.preNode = pre
 	binds := map[string]ast.Expr{}
 	for _, cl := range fc.Requires {
 		if cl.Label == "bind" {
@@ -272,13 +274,39 @@ func (e *Engine) verifyFuncInstance(rep *FuncReport, fn *ssa.Function, fc *contr
 	for k, v := range en.vars {
 		en2.vars[k] = v
 	}
+	// results of the different return statements are merged into one value per result; where that is not
+	// possible (slices or pointers into different heap families, e.g. a package-level table on one path and
+	// a fresh slice on another) the postconditions are stated once per return statement instead
+	type exitView struct {
+		suffix string
+		en     *env
+		node   *node
+	}
+	views := []exitView{{"", en2, exit}}
 	if len(exit.preds) > 0 && fn.Signature.Results().Len() > 0 {
-		res := r.mergeVals(conds, vals)
-		bindResults(en2, fc, fn.Signature.Results(), res)
+		if mergeableVals(vals) {
+			res := r.mergeVals(conds, vals)
+			bindResults(en2, fc, fn.Signature.Results(), res)
+		} else {
+			views = nil
+			for i, re := range fr.rets {
+				n := fr.newNode(fn.Blocks[0], nil)
+				n.preds = []*edge{{from: re.n, cond: re.cond}}
+				n.computeGuard()
+				sub := &env{r: r, pkg: pkg, vars: map[string]TV{}, cur: n, old: pre, fr: fr}
+				for k, v := range en.vars {
+					sub.vars[k] = v
+				}
+				bindResults(sub, fc, fn.Signature.Results(), vals[i])
+				views = append(views, exitView{fmt.Sprintf("@ret%d", i), sub, n})
+			}
+		}
 	}
 	if len(exit.preds) > 0 && !fc.NoFrame {
 		r.frameObligations(fr, en2, pre, exit, fc.Modifies, alloc0)
 	}
+	for _, view := range views {
+	en2, exit := view.en, view.node
 	for k, cl := range fc.Ensures {
 		label := fmt.Sprintf("%d", k)
 		if cl.Label != "" {
@@ -311,12 +339,57 @@ func (e *Engine) verifyFuncInstance(rep *FuncReport, fn *ssa.Function, fc *contr
 				if len(cs) > 1 {
 					nm += fmt.Sprintf(".c%d", j)
 				}
-				nm += "]"
+				nm += "]" + view.suffix
 				r.oblige("ensures", nm, exit.guard, cj, "ensures "+cl.Text)
 			}
 			r.goalTag = ""
 		}
 	}
+	}
+}
+
+// mergeableVals: can the values returned by the different return statements be merged into one value
+// (slices and pointers must live in the same heap family)?
+func mergeableVals(vals []Value) bool {
+	var heaps func(v Value, out *[]string)
+	heaps = func(v Value, out *[]string) {
+		switch x := v.(type) {
+		case SliceV:
+			*out = append(*out, fmt.Sprintf("%s/%d", x.Base.Heap, len(x.Base.Idxs)))
+		case PtrV:
+			*out = append(*out, fmt.Sprintf("%s/%d", x.L.Heap, len(x.L.Idxs)))
+		case TupleV:
+			for _, e := range x.Elems {
+				heaps(e, out)
+			}
+		case StructV:
+			for _, f := range x.Fields {
+				heaps(f, out)
+			}
+		default:
+			*out = append(*out, "")
+		}
+	}
+	seen := map[int]string{}
+	width := -1
+	for _, v := range vals {
+		var hs []string
+		heaps(v, &hs)
+		if width >= 0 && len(hs) != width {
+			return true // differently shaped values (nil against a struct and the like): left to the merge
+		}
+		width = len(hs)
+		for k, h := range hs {
+			if h == "" {
+				continue
+			}
+			if s, ok := seen[k]; ok && s != h {
+				return false
+			}
+			seen[k] = h
+		}
+	}
+	return true
 }
 
 func mergeSorted(a, b []string) []string {
